@@ -281,7 +281,7 @@ pub fn check_bit_iterators(v: &BitsVal, m: &BitModel, rng: &mut Rng, o: BitOpts,
         ensure!(ok, "{who}: zeros() does not stay exhausted");
     }
     // provided iterator methods on the concrete iterator types
-    if n <= 60_000 {
+    if n <= 6_000 || (n <= 60_000 && rng.below(8) == 0) {
         let seed = rng.next_u64();
         v.check_iter_adapters(m, seed, ctx)?;
     }
